@@ -341,6 +341,71 @@ def check_data(datas, N, cfg, acc, only=None):
                                             report("stddev", call, "cell %r col %d = %r, expected %r" % (coords, k, float(cellidx(v, coords, ex)), exp))
                                 record("stddev", call, anym, multi)
 
+    # ---------------- one set of fact arrays handed to successive statistics (an application computes several statistics of one column):
+    # weighted stddev (a row with a missing weight), stddev under a (values, validity) weight, plain stddev, then quantile / min / max /
+    # covariance of the SAME argument objects; each answer must equal the answer for freshly built arguments
+    if (only is None or only["stat"] in ("shared-args", "stddev")) and N >= 1:
+        def same(a, b):
+            if isinstance(a, tuple) or isinstance(b, tuple):
+                return isinstance(a, tuple) and isinstance(b, tuple) and len(a) == len(b) and all(same(p_, q_) for p_, q_ in zip(a, b))
+            a, b = numpy.asarray(a), numpy.asarray(b)
+            return a.shape == b.shape and a.dtype == b.dtype and numpy.array_equal(a, b, equal_nan=a.dtype.kind in "fc")
+
+        wsl = wspecs(N, 1)
+        seq_w = [w_ for w_ in wsl if w_[0] == "array" and "M" in w_[1]][:2] + [w_ for w_ in wsl if w_[0] == "array" and w_[2] == "pair-huge"][:1] + [("none",)]
+        for cols in ([0], [0, 1], ["d", "b"]):
+            K = len(cols)
+            plist = patterns(N, K, min(fl, 1))
+            for pat in plist[:3]:
+                for form in ("nan", "pair-huge"):
+                    for ignore in (False, True):
+                        for oned in ([True, False] if K == 1 else [False]):
+                            call = {"cols": cols, "pattern": pat, "form": form, "ignore": ignore, "oned": oned, "shared": True}
+                            if only is not None and _js(call) != only["call"]:
+                                continue
+                            a0, _, _ = fact_arg(N, cols, pat, form)
+                            shared = flat1(a0) if oned else a0
+
+                            def fresh():
+                                a, _, _ = fact_arg(N, cols, pat, form)
+                                return flat1(a) if oned else a
+
+                            steps = [("stddev", ws) for ws in seq_w] + [("quantile", None), ("min", None), ("max", None)] + ([("covariance", None)] if K >= 2 else [])
+                            for stat, ws in steps:
+                                def one(arg):
+                                    if stat == "stddev":
+                                        return mk().stddev(arg, Q.make_weights(N, ws)[0], ignore)
+                                    if stat == "quantile":
+                                        return mk().quantile(arg, 0.5, None, ignore)
+                                    if stat == "covariance":
+                                        return mk().covariance(arg, None, ignore)
+                                    return getattr(mk(), stat)(arg, ignore)
+
+                                try:
+                                    ref = one(fresh())
+                                except Exception:  # noqa
+                                    continue    # this statistic does not take this kind of fact (the per-statistic passes decide that)
+                                try:
+                                    outs = [one(shared), ref]
+                                    for arg in ():
+                                        if stat == "stddev":
+                                            outs.append(mk().stddev(arg, Q.make_weights(N, ws)[0], ignore))
+                                        elif stat == "quantile":
+                                            outs.append(mk().quantile(arg, 0.5, None, ignore))
+                                        elif stat == "covariance":
+                                            outs.append(mk().covariance(arg, None, ignore))
+                                        else:
+                                            outs.append(getattr(mk(), stat)(arg, ignore))
+                                    acc.count("evals", 2)
+                                    if not same(outs[0], outs[1]):
+                                        report("shared-args", call, "%s%s of arguments that earlier statistics have seen = %r, of fresh arguments = %r" % (
+                                            stat, "" if ws is None else " (weights %r)" % (ws,), numpy.asarray(outs[0]).tolist(), numpy.asarray(outs[1]).tolist()))
+                                        break
+                                except Exception as e:  # noqa
+                                    report("shared-args", call, "%s raised %r" % (stat, e))
+                                    break
+                            record("shared-args", call, True, multi)
+
     # ---------------- quantile
     if want("quantile"):
         for cols in ([0], [0, 1]):
